@@ -82,7 +82,8 @@ package udpip
 //@ # delivering a packet to a link gives it away (to a processor queue, or back to the pool when the queue is full)
 //@ iface udpLink.receive
 //@   requires router.owned[p]
-//@   modifies router.owned[p], *p
+//@   modifies router.owned[p], *p, router.heldCount
+//@   gset router.heldCount := old(router.heldCount) - 1
 //@   ensures !router.owned[p]
 //@ macro held(j, i, nb) = ((0 <= j && j < i) || (nb <= j && j < batchSize))
 //@ func (*udpConnection).receive
@@ -90,6 +91,13 @@ package udpip
 //@   nosafety
 //@   requires batchSize > 0
 //@   requires forall q *router.Packet :: !router.owned[q]
+//@   requires router.heldCount == 0
+//@   # no leak: at shutdown the loop holds nothing any more (count of Get = count of Put + hand-offs)
+//@   ensures router.heldCount == 0
+//@   loop 1 invariant router.heldCount == numReusable
+//@   loop 2 invariant router.heldCount == numReusable + rangeint_iter
+//@   loop 3 invariant router.heldCount == batchSize - (rangeindex+1)
+//@   loop 4 invariant router.heldCount == numReusable - (rangeindex+1)
 //@   loop 1 invariant 0 <= numReusable && numReusable <= batchSize && len(packets) == batchSize && len(msgs) == batchSize
 //@   loop 1 invariant forall j int :: batchSize-numReusable <= j && j < batchSize ==> router.owned[packets[j]]
 //@   loop 1 invariant forall j int, k int :: batchSize-numReusable <= j && j < k && k < batchSize ==> packets[j] != packets[k]
